@@ -32,7 +32,11 @@ def jobs(tier):
         J.append(A("New" + P, loops=["New" + P], clause="New: requested size, all cells zero, fresh storage"))
         J.append(A("Del" + P, clause="Del: frees exactly the struct and its data block"))
         J.append(A(P + "Append", clause="Append: size+1, last cell = value, old cells preserved"))
-        for n in range(0, 6 if tier == "quick" else 9):
+        elem = {"DVector": "double", "UIVector": "size_t", "IVector": "int"}[P]
+        J.append(Job(P + "RemoveAt", "C14/vectors.c", srcs=V, enforce=P + "RemoveAt", replace=["memmove"], kind="proof", defines={"VC_MEMMOVE_ELEM": elem},
+                     bound=UNB + "; libc memmove by ASSUMED element-wise contract (contracts/libc.h)", timeout=900,
+                     clause="RemoveAt for every size: in range -> size-1, prefix preserved, suffix shifted; out of range -> no change (memmove by assumed contract)"))
+        for n in range(0, 4 if tier == "quick" else 9):
             J.append(Job(P + "RemoveAt@n=%d" % n, "C14/vectors.c", entry="h_%sRemoveAt_fix" % P, srcs=V + ["stubs/memmove_stub.c"], enforce=P + "RemoveAt", kind="bounded",
                          defines={"VC_FIXN": str(n)}, unwind=n + 2,
                          unwindset=["memmove.0:%d" % (8 * n + 2), "memmove.1:%d" % (8 * n + 2)],
